@@ -241,6 +241,10 @@ class FetchNoCrash(_c04.FetchShape):
         except Exception:  # noqa
             return False
 
+        def shape(sc):
+            return [(k.name, k.is_scope, bool(k.multiple), str(k.type) if k.is_definition else shape(k))
+                    for k in sc.objects if not k.is_disabled]
+
         def uniq(sc):
             seen = {}
             for o in sc.objects:
@@ -260,6 +264,8 @@ class FetchNoCrash(_c04.FetchShape):
                         return False  # every occurrence of a multiple object carries .multiple itself
                     if o.is_definition and str(first.type) != str(o.type):
                         return False
+                    if o.is_scope and shape(first) != shape(o):
+                        return False  # every occurrence of a multiple scope declares the same parameters
                 if o.is_scope and not uniq(o):
                     return False
                 if o.is_definition and getattr(o.type, "phil_type", None) == "choice" and len(o.words) == 1 \
